@@ -171,6 +171,33 @@ class PathEval:
         self.cons = cons
         self.max_paths = max_paths
 
+    # ---- value-domain hooks (overridden by other abstract domains, e.g. lib/rays.py) ----
+    def dom_const(self, c):
+        return RF.const(c)
+
+    def dom_input(self, vn):
+        return RF(p_var(vn))
+
+    def dom_check(self, r):
+        if len(r.n) > 6000:
+            raise Unsupported("polynomial too large")
+
+    def dom_cmp(self, pred, a, b):
+        """truth value of `a pred b`, or None when it is not constant on the domain"""
+        a = a.normal(self.cons)
+        b = b.normal(self.cons)
+        diff = (a - b).normal(self.cons)
+        if p_is_const(diff.n) and p_is_const(diff.d) and diff.d:
+            v = (diff.n.get((), Fraction(0))) / diff.d[()]
+            return {"eq": v == 0, "ne": v != 0, "lt": v < 0, "le": v <= 0, "gt": v > 0, "ge": v >= 0, "rd": True, "no": False}[pred]
+        return None
+
+    def dom_call(self, name, args):
+        """value of a call of a pure libm function / intrinsic, or raise Unsupported"""
+        raise Unsupported("call of %s (outside the polynomial domain)" % name)
+
+    PURE_CALLS = ()
+
     def run(self):
         """list of paths: dict {"stores": {(param, byte offset): RF}, "conds": [(text, bool)]}"""
         results = []
@@ -253,7 +280,8 @@ class PathEval:
                     m = re.search(r"(" + ir.GNAME + r")\s*\(", ins.text)
                     cal = m.group(1) if m else None
                     if cal is None or not (cal.startswith("@llvm.fmuladd") or cal.startswith("@llvm.lifetime") or cal.startswith("@llvm.assume")
-                                           or cal.startswith("@llvm.experimental.noalias") or cal.startswith("@llvm.fabs") or cal.startswith("@llvm.dbg")):
+                                           or cal.startswith("@llvm.experimental.noalias") or cal.startswith("@llvm.fabs") or cal.startswith("@llvm.dbg")
+                                           or cal.lstrip("@").split(".f64")[0].split(".f32")[0] in self.PURE_CALLS):
                         raise Unsupported("call of %s (not inlined; its memory effects are outside the polynomial domain)" % (cal or "an indirect callee"))
                 else:
                     continue   # pure instructions are evaluated on demand
@@ -276,9 +304,9 @@ class PathEval:
                 raise Unsupported("memset with non-zero value")
             for o in range(dst.off, dst.off + ln, 8):
                 if dst.root[0] == "param":
-                    stores[(dst.root[1], o)] = RF.const(0)
+                    stores[(dst.root[1], o)] = self.dom_const(0)
                 elif dst.root[0] == "alloca":
-                    vals[("mem", dst.root, o)] = RF.const(0)
+                    vals[("mem", dst.root, o)] = self.dom_const(0)
                 else:
                     raise Unsupported("memset destination " + str(dst))
         else:
@@ -299,7 +327,7 @@ class PathEval:
             vn = self.cell_var(p.root[1], off, ty)
             if vn is None:
                 raise Unsupported("load from parameter %d offset %d is not an input cell" % (p.root[1], off))
-            return RF(p_var(vn))
+            return self.dom_input(vn)
         if p.root[0] == "alloca":
             k = ("mem", p.root, off)
             if k in vals:
@@ -321,13 +349,9 @@ class PathEval:
         if ins.op == "fcmp":
             m = re.match(r"^fcmp (?:\w+ )*?(oeq|one|olt|ole|ogt|oge|ueq|une|ult|ule|ugt|uge|ord|uno) (?:double|float) (\S+?), (\S+)$", ins.text.strip())
             if m:
-                a = self._value(m.group(2), vals).normal(self.cons)
-                b = self._value(m.group(3), vals).normal(self.cons)
-                diff = (a - b).normal(self.cons)
-                if p_is_const(diff.n) and p_is_const(diff.d) and diff.d:
-                    v = (diff.n.get((), Fraction(0))) / diff.d[()]
-                    pred = m.group(1)[1:]
-                    return {"eq": v == 0, "ne": v != 0, "lt": v < 0, "le": v <= 0, "gt": v > 0, "ge": v >= 0, "rd": True, "no": False}[pred]
+                r = self.dom_cmp(m.group(1)[1:], self._value(m.group(2), vals), self._value(m.group(3), vals))
+                if r is not None:
+                    return r
         raise _NeedDecision(c)
 
     def _value(self, v, vals, depth=0):
@@ -340,7 +364,7 @@ class PathEval:
             return r
         c = ir.parse_const(v)
         if c is not None:
-            return RF.const(Fraction(c) if not isinstance(c, float) else Fraction(c))
+            return self.dom_const(Fraction(c))
         if v in ("undef", "poison"):
             raise Unsupported("undef value")
         if depth > 3000:
@@ -362,8 +386,13 @@ class PathEval:
         elif op == "call" and "@llvm.fmuladd" in t:
             args = [self.ff._arg_value(a) for a in ir.split_top(self.ff._call_args(t))]
             r = self._value(args[0], vals, depth + 1) * self._value(args[1], vals, depth + 1) + self._value(args[2], vals, depth + 1)
-        elif op == "call" and "@llvm.fabs" in t:
-            raise Unsupported("fabs")
+        elif op == "call" and "@llvm.fmuladd" not in t:
+            m = re.search(r"(" + ir.GNAME + r")\s*\(", t)
+            cal = m.group(1) if m else None
+            if cal is None:
+                raise Unsupported("indirect call")
+            args = [self._value(self.ff._arg_value(a), vals, depth + 1) for a in ir.split_top(self.ff._call_args(t))]
+            r = self.dom_call(cal.lstrip("@"), args)
         elif op == "load":
             m = re.match(r"^load (?:volatile )?(\S+), ptr (\S+?)(?:,|$| )", t)
             ty, ptr = m.group(1), m.group(2)
@@ -385,8 +414,7 @@ class PathEval:
             raise Unsupported("phi evaluated out of order")
         else:
             raise Unsupported("instruction " + t[:60])
-        if len(r.n) > 6000:
-            raise Unsupported("polynomial too large")
+        self.dom_check(r)
         vals[v] = r
         return r
 
